@@ -107,6 +107,12 @@ func newEngine(h *Header, withPolicy bool) *twig.Engine {
 		fs.SetSuffix("")
 		e.RegisterLoader(fs)
 	}
+	// every engine has its own value of the global g (the engine with the policy is engine 1)
+	if withPolicy {
+		e.AddGlobal("g", "G1")
+	} else {
+		e.AddGlobal("g", "G2")
+	}
 	if h.Policy != nil && withPolicy {
 		e.EnableSandbox(makePolicy(Cfg{AllowF: h.Policy.Filters, AllowFn: h.Policy.Functions}))
 	}
@@ -308,6 +314,11 @@ func runHistory(h *Header, c *HCase, oracle map[string]OResult) (res Result) {
 			if got.Ok != want.Ok || got.Out != want.Out || got.Kind != want.Kind {
 				fail(i, "differs-from-pristine", fmt.Sprintf("ok=%v kind=%s out=%q %s", got.Ok, got.Kind, got.Out, got.Msg),
 					fmt.Sprintf("ok=%v kind=%s out=%q", want.Ok, want.Kind, want.Out))
+			}
+		case "reghandle":
+			trail = append(trail, fmt.Sprintf("reghandle(e%d,h%d)", op.E, op.H))
+			if op.H >= 1 && op.H <= len(handles) {
+				eng(op.E).RegisterTemplate("nh", handles[op.H-1])
 			}
 		case "setcache":
 			trail = append(trail, fmt.Sprintf("setcache(e%d,%v)", op.E, op.B))
